@@ -81,7 +81,7 @@ func probes[K, V any](t symboltable.SymbolTable[K, V], key K) (g, fd int) {
 // probesM also returns the capacity of the table at the time of the walk.
 func probesM[K, V any](t symboltable.SymbolTable[K, V], key K) (g, fd, m int) {
 	g, fd = -1, -1
-	hx.WithTimeout(2*time.Second, func() {
+	hx.WithTimeout(10*time.Second, func() {
 		hx.Try(func() {
 			st, _ := symboltable.VerifHashSlots(t)
 			m = st.M
